@@ -95,6 +95,9 @@ fn main() {
             },
         }
     }
+    if args.len() >= 2 && args[1] == "k3" {
+        std::process::exit(props::misc::k3_main());
+    }
     if args.len() >= 2 && args[1] == "k1" {
         std::process::exit(props::misc::k1_main());
     }
